@@ -57,11 +57,15 @@ class JitPlugin(PrimitiveLeafPlugin):
                 return v
             if v in var_map:
                 return var_map[v]
-            var_map[v] = jcore.Var(
-                v.aval,
-                getattr(v, "initial_qdd", None),
-                getattr(v, "final_qdd", None),
-            )
+            try:
+                var_map[v] = jcore.Var(
+                    v.aval,
+                    getattr(v, "initial_qdd", None),
+                    getattr(v, "final_qdd", None),
+                )
+            except TypeError:
+                # Newer JAX: Var.__init__ takes only the abstract value.
+                var_map[v] = jcore.Var(v.aval)
             return var_map[v]
 
         def _map_vars(seq: Any) -> list[Any]:
